@@ -87,6 +87,35 @@ fn main() {
         eprintln!("usage: vx <c01|c03|c09|c10|c08|c17|c18> [--tier t] [--replay file]");
         std::process::exit(2);
     }
+    if args[1] == "zcat" {
+        // independent decode of a zstd file to stdout (used by the process-level explorers)
+        use std::io::Write;
+        let f = std::fs::File::open(&args[2]).unwrap_or_else(|e| {
+            eprintln!("open: {}", e);
+            std::process::exit(1)
+        });
+        match zstd::stream::decode_all(f) {
+            Ok(b) => {
+                std::io::stdout().write_all(&b).unwrap();
+                std::process::exit(0)
+            }
+            Err(e) => {
+                eprintln!("decode: {}", e);
+                std::process::exit(1)
+            }
+        }
+    }
+    if args[1] == "groups" {
+        // vx groups <config.json> <work_path> [visible targets...] : the groups the code itself
+        // computes for a visible set (hook index_groups), used by the schedule driver for pacing
+        let cfg = std::fs::read_to_string(&args[2]).expect("config");
+        let vis: Vec<String> = args[4..].to_vec();
+        match monorail::verif::index_groups(&cfg, &vis, std::path::Path::new(&args[3])) {
+            Ok(g) => println!("{}", json!({"groups": g})),
+            Err(e) => println!("{}", json!({"error": e})),
+        }
+        return;
+    }
     let prop = args[1].to_lowercase();
     let mut tier = std::env::var("VERIF_TIER").unwrap_or_else(|_| "quick".into());
     let mut replay: Option<String> = None;
